@@ -67,6 +67,9 @@ type SimOS struct {
 	failable   int
 	Injected   int
 	ShortWrite bool
+	// YieldFn, if set, is called at the start of every OS call (outside the
+	// lock): the simulator uses it to deschedule the caller inside the call.
+	YieldFn func(site string)
 	// RelCwd, if set, is what Getwd reports (a relative path); path resolution
 	// treats it as an alias of the real simulated cwd.
 	RelCwd string
@@ -99,6 +102,10 @@ func New() *SimOS {
 // ---- log and faults
 
 func (s *SimOS) log(method string, failable bool, args ...any) (idx int, err error) {
+	if s.YieldFn != nil {
+		// a slow device: the caller may be descheduled inside the OS call
+		s.YieldFn("simos." + method)
+	}
 	s.mu.Lock()
 	defer s.mu.Unlock()
 	var as []string
